@@ -415,6 +415,17 @@ func TestC19Store(t *testing.T) {
 				rel := jsonapi.Rel{FromType: "t", FromName: rapid.SampledFrom([]string{"m", "o", "y"}).Draw(t, "name"), ToType: "t", ToOne: rapid.Bool().Draw(t, "toOne")}
 				_, dup := model.rels[rel.FromName]
 
+				// (one end of a pair within the type - parent and children -
+				// or of a pair with itself; the other end may be there already)
+				if rapid.Bool().Draw(t, "inverse") {
+					rel.ToName = rapid.SampledFrom([]string{"m", "o", "y", "zz"}).Draw(t, "inverse-name")
+					rel.FromOne = rapid.Bool().Draw(t, "fromOne")
+
+					if other, ok := model.rels[rel.ToName]; ok && rapid.Bool().Draw(t, "inverse-matching") {
+						rel.ToOne, rel.FromOne = other.FromOne, other.ToOne
+					}
+				}
+
 				if _, cross := model.attrs[rel.FromName]; cross {
 					t.Skip("the name is an attribute of the collection (cross-kind collisions are not compared)")
 				}
